@@ -653,10 +653,12 @@ def odd_lpf(ctx, p, site):
                     continue
                 if bool(v) != pp:
                     reach = False
-            if gd[0] in ("true", "false") and show(gd[1]) == "std::vec::Vec::<T, A>::is_empty(lpf[0])":
+            if gd[0] in ("true", "false"):
                 pp, cc = paths.bool_atoms(gd)
-                if (w == 0) != pp:
-                    reach = False
+                # is_empty(<the first row, however it is spelled>)
+                if cc[0] == "call" and cc[1].rsplit("::", 1)[-1] == "is_empty" and len(cc[2]) == 1 and ("len(%s)" % show(cc[2][0])) in WIDTHS:
+                    if (w == 0) != pp:
+                        reach = False
         if reach:
             bad.append("placeholder rows have width %d, for which the panic condition holds" % w)
     if bad:
